@@ -288,6 +288,7 @@ func (s *Solver) checkZ3(pc []*Term, extra *Term, vars []*Term, wantModel bool) 
 		s.lastTimeout = s.curTimeout
 	}
 	fmt.Fprintf(&w, "(push 1)\n(assert %s)\n(check-sat)\n", extra.ref())
+	logZ3(w.Bytes())
 	if _, err := s.in.Write(w.Bytes()); err != nil {
 		s.dead = true
 		s.Stats.Errors = append(s.Stats.Errors, "z3 write: "+err.Error())
@@ -346,6 +347,7 @@ func (s *Solver) checkZ3(pc []*Term, extra *Term, vars []*Term, wantModel bool) 
 			q.WriteByte(' ')
 		}
 		q.WriteString("))\n(echo \"<<END>>\")\n")
+		logZ3(q.Bytes())
 		s.in.Write(q.Bytes())
 		var sb strings.Builder
 		for {
@@ -510,4 +512,19 @@ func (s *Solver) fallback(pc []*Term, extra *Term, vars []*Term, wantModel bool)
 		return Unknown, nil, "portfolio"
 	}
 	return first.r, first.m, first.who
+}
+
+
+var z3log = os.Getenv("GOSX_LOG_Z3")
+
+// logZ3 appends everything sent to z3 to the file named by GOSX_LOG_Z3 (debugging aid).
+func logZ3(b []byte) {
+	if z3log == "" {
+		return
+	}
+	f, err := os.OpenFile(z3log, os.O_APPEND|os.O_CREATE|os.O_WRONLY, 0o644)
+	if err == nil {
+		f.Write(b)
+		f.Close()
+	}
 }
